@@ -603,7 +603,14 @@ func runCase(rt *rapid.T, c *stats.Case) {
 				c.Label("failed-write-tolerated-by-the-op")
 			}
 			for j := next; j < len(ops); j++ {
-				if err := apply(nd, ops[j]); err != nil {
+				err, stuck, slow := applyBounded(nd, ops[j])
+				if stuck != "" {
+					c.Violation("retry-never-returns", "after write %d (key %x) failed during op %d %s (%s backend, call returned %v), op %d %s never returns: its goroutine is parked on a lock nobody holds any more\n%s", m, fs.FailedKey, i, ops[i], nd.Backend(), failedErr, j, ops[j], stuck)
+				}
+				if slow != "" {
+					stats.HarnessError("op %d %s still running after %v (not parked on a lock):\n%s", j, ops[j], stuckAfter, slow)
+				}
+				if err != nil {
 					c.Violation("retry-failed", "after write %d failed during op %d %s, op %d %s (retry/continuation) failed: %v", m, i, ops[i], j, ops[j], err)
 				}
 			}
